@@ -103,6 +103,40 @@ func universeType(v any) reflect.Type {
 	return t
 }
 
+// vocabularyNamesOf returns the vocabulary type names the table assigns to a struct, sorted.
+func vocabularyNamesOf(structName string) []string {
+	var out []string
+	for n, e := range c07Vocabulary {
+		if e[0] == structName {
+			out = append(out, n)
+		}
+	}
+	sortStrings(out)
+	return out
+}
+
+// moreFamilies calls fn with the value families added after round 5: every vocabulary type name of every struct (level 1 and
+// pairs of instant/duration properties), an IRI property related to the value's own id, deep chains of embedded objects, lists
+// holding two ids that collide under a common 32-bit hash.
+func moreFamilies(codec universe.Codec, fn func(universe.Recipe)) {
+	for i := range universe.Structs {
+		s := &universe.Structs[i]
+		universe.TypeNames(s, vocabularyNamesOf(s.Name), codec, fn)
+		universe.RelatedIdentity(s, fn)
+		for _, via := range []string{"Attachment", "InReplyTo", "Tag"} {
+			for _, depth := range []int{5, 10, 33, 65, 130} {
+				if (s.Name != "Object" && s.Name != "Activity") && depth > 10 {
+					continue
+				}
+				if r, ok := universe.DeepChain(s, via, depth); ok {
+					fn(r)
+				}
+			}
+		}
+	}
+	universe.Collisions(fn)
+}
+
 // repoDir is the tree under test: /repo, unless VERIF_REPO names a scratch copy (used only while developing the checks against
 // a pristine worktree; go.mod's replace directive must point at the same directory).
 func repoDir() string {
